@@ -6,5 +6,6 @@ import TV.ShapeOK.Queue
 #print axioms TV.C14.C14_every_error_reported
 #print axioms TV.C14.C14_subs_monotone
 #print axioms TV.C14.C14_subscribe_anytime
+#print axioms TV.C14.C14_model_passes_monitor
 #print axioms TV.ShapeOK.Queue.discipline
 #print axioms TV.ShapeOK.Queue.sites_present
